@@ -42,6 +42,7 @@ static int vi_printed;		/* ex_print() calls since the last command */
 static int vi_scroll;		/* scroll amount for ^f and ^d */
 static int vi_soset, vi_so;	/* search offset; 1 in "/kw/1" */
 static int vi_insert;		/* insert mode */
+static int vi_fixleft;		/* xleft when vi_drawfix() last drew rows */
 static int w_cnt = 1;		/* window count */
 static int w_cur;		/* active window identifier */
 static int w_tmp;		/* temporary window */
@@ -125,6 +126,7 @@ static void vi_drawfix(int r1, int r2, int n, int preview)
 	}
 	r1 = MIN(MAX(r1, xtop), xtop + xrows - 1);
 	r2 = MIN(MAX(r2, xtop), xtop + xrows - 1);
+	vi_fixleft = xleft;
 	term_record();
 	term_pos(r1 - xtop, 0);
 	term_room(r1 - r2 - 1 + n);
@@ -1810,6 +1812,8 @@ static void vi(void)
 			xleft = xcol - xcols / 2;
 		if (xcol < xleft)
 			xleft = xcol < xcols ? 0 : xcol - xcols / 2;
+		if (mod & VC_OK && vi_fixleft != xleft)	/* drawn with another xleft */
+			mod |= VC_WIN;
 		vi_wait();
 		term_record();
 		ru = (xru & 1) || ((xru & 2) && w_cnt > 1) || ((xru & 4) && opath != ex_path());
